@@ -627,6 +627,19 @@ def callout_loops(ctx):
             attr = _live_container(it)
             if attr is None:
                 continue
+            # a class-level TUPLE is not a live container: nobody can change
+            # it while it is iterated
+            decl = None
+            for k in prog.mro(fi.cls):
+                if attr in k.attrs:
+                    decl = k.attrs[attr]
+                    break
+            if isinstance(decl, ast.Tuple) and not any(
+                    isinstance(x, ast.Attribute) and x.attr == attr and
+                    isinstance(x.ctx, ast.Store)
+                    for f2 in prog.all_funcs.values()
+                    for x in ast.walk(f2.node)):
+                continue
             targets = {t.id for t in ast.walk(node.target)
                        if isinstance(t, ast.Name)}
             callout = None
